@@ -207,8 +207,12 @@ ADDENDA = {
     'C19': ' Also: the number / mapping / iterable arms reject nothing.',
     'C20': ' Also: the four-way button summary of _get_ordered_players; utilities.rotated.',
 }
-COMMON = (' Every check also runs the definite-assignment clauses <PID>.defined over the functions the property is anchored in (no read of an '
-          'undefined name, no local left unbound by a falling-through handler or if-arm), on sources put into normal form first (unknown helpers '
-          'inlined at their call sites, functional spellings of the loop idioms, adjacent single-use locals, conditional expressions).')
+COMMON = (' Every check also runs four clauses over the functions the property is anchored in and the private helpers they call: <PID>.defined (no read of an '
+          'undefined name, no local left unbound by a falling-through handler or if-arm), <PID>.arguments (named arguments in the positions of the '
+          'same-named parameters, no mutable parameter default, a possibly one-shot iterable materialised before it is read twice), <PID>.writers '
+          '(the attributes and module-level objects a function writes, and the number of writing sites, are those of the reviewed tree) and '
+          '<PID>.static (no decorator beyond the plain ones of the code base, no attribute-rerouting or class-rewriting hook) - on sources put into '
+          'normal form first (unknown helpers inlined at their call sites, functional spellings of the loop idioms, adjacent single-use locals, '
+          'conditional expressions).')
 for _pid, _c in CHECKS.items():
     _c['level'] = _c['level'] + ADDENDA.get(_pid, '') + COMMON
